@@ -1,70 +1,60 @@
 //! C02 / C05 / C06 — request parsing kernels and small full-parser templates (32-byte buffer:
 //! `BUF_SIZE` is 32 in `--cfg ohkami_verif` builds; same code, shorter distances).
-use crate::support::{exec::block_on, io::ScriptReader, refmodels::is_utf8, stubs};
+use crate::support::{exec::block_on, io::SliceReader, refmodels::is_utf8, stubs};
 use ohkami::{Method, Request};
 use ohkami::__verif as v;
 
 // =================================================================================================
 // K3 / S1 / G2 — read_payload: the body is exactly the announced bytes, however they arrived
 // =================================================================================================
-/// `k` body bytes arrived with the head (they sit in the buffer tail, zeros after them, as after
-/// `Request::clear`), the rest comes from the stream cut at `cuts`
-fn payload_case<const BODY: usize>(k: usize, cuts: &[usize], dirty_tail: bool) {
-    let body: [u8; BODY] = kani::any();
-    // buffer tail as `read` passes it: what is left of the 32-byte buffer after the head
-    let mut tail = [0u8; 6];
-    if dirty_tail { tail = kani::any(); }     // G2: whatever an earlier request left behind `clear()`'s first NUL
-    let mut i = 0;
-    while i < k { tail[i] = body[i]; i += 1; }
-    // the stream holds the rest of the body
-    let mut rest = [0u8; BODY];
-    let mut i = k;
-    while i < BODY { rest[i - k] = body[i]; i += 1; }
-    let mut stream = ScriptReader::<BODY>::new(rest, BODY - k).with_cuts(cuts);
-    let got = block_on(v::read_payload(&mut stream, &tail[..], BODY), 2).expect("read_payload completed");
+// The future of the real `Request::read_payload` is polled where it was created (`block_on_in_place`): a future that
+// is awaited from inside another `async` state machine loses every constant under CBMC (DESIGN.md section 8.2).
+//
+// `arrived` = the part of the connection buffer behind the head that the first read filled: the first `k` body bytes.
+// `read` hands `read_payload` exactly those bytes (contract of the call site since the fix recorded in
+// known_findings.json; before it the whole zero-padded rest of the buffer was passed and a zero byte meant "nothing
+// arrived", see `c06_kf_*`). The rest of the body comes from the stream, cut at `cut`.
+fn payload_kernel<const BODY: usize>(k: usize, cut: usize) {
+    let body: &'static [u8; BODY] = Box::leak(Box::new(kani::any()));
+    let cuts: &'static [usize; 1] = Box::leak(Box::new([cut]));
+    let mut stream = SliceReader::new(&body[k..], &cuts[..]);
+    let arrived: &[u8] = &body[..k];
+    let mut fut = v::read_payload(&mut stream, arrived, BODY);
+    let got = crate::support::exec::block_on_in_place(&mut fut, 2).expect("C06: read_payload waits although all bytes of the body are available");
+    std::mem::forget(fut);
     let got: &[u8] = &got;
     assert!(got.len() == BODY, "C02/C06: payload length differs from Content-Length");
     let mut i = 0;
     while i < BODY { assert!(got[i] == body[i], "C02/C05/C06: payload bytes are not the bytes of this request's body"); i += 1; }
+    assert!(stream.reads_after_end == 0, "C06: read_payload reads beyond the announced body (bytes of the next request)");
     kani::cover!(body[0] == 0, "body starts with NUL");
     kani::cover!(body[0] != 0, "body starts with a non-NUL byte");
 }
 
-// @verif prop=C06 tier=off replay=none mem=40 timeout=3000 unwindset="10read_exact.*9ReadExact.*6Future4poll.*\.0 :5;12ScriptReader.*9AsyncRead9poll_read.*\.0 :6" bounds="body of 4 symbolic bytes (NUL included): 0 bytes with the head, rest in one read"
+// @verif prop=C06 tier=quick replay=none timeout=600 mem=8 bounds="body of 6 symbolic bytes (NUL anywhere); how many of them arrived with the head (0..=6) and where the rest is cut into two reads are symbolic"
 #[kani::proof]
 #[kani::stub(tokio::io::util::read_exact::eof, stubs::eof_simple)]
-#[kani::unwind(10)]
-fn c06_body_all_later() { payload_case::<4>(0, &[], false) }
+#[kani::unwind(9)]
+fn c06_body_any_split() {
+    let k: usize = kani::any();
+    let cut: usize = kani::any();
+    kani::assume(k <= 6 && cut <= 6);
+    payload_kernel::<6>(k, cut);
+    kani::cover!(k > 0 && k < 6, "body prefix in the first segment");
+    kani::cover!(k == 6, "whole body in the first segment");
+    kani::cover!(k == 0 && cut > 0 && cut < 6, "body in two later segments");
+}
 
-// @verif prop=C06 tier=off replay=none mem=40 timeout=3000 unwindset="10read_exact.*9ReadExact.*6Future4poll.*\.0 :5;12ScriptReader.*9AsyncRead9poll_read.*\.0 :6" bounds="body of 4 symbolic bytes: 2 bytes with the head, rest in one read"
+// @verif prop=C02 tier=quick replay=none timeout=600 mem=8 bounds="body of 3 symbolic bytes (NUL included) in the same read as the head / 1 byte with the head"
 #[kani::proof]
 #[kani::stub(tokio::io::util::read_exact::eof, stubs::eof_simple)]
-#[kani::unwind(10)]
-fn c06_body_split_2_2() { payload_case::<4>(2, &[], false) }
-
-// @verif prop=C06 tier=off replay=none mem=40 timeout=3000 unwindset="10read_exact.*9ReadExact.*6Future4poll.*\.0 :5;12ScriptReader.*9AsyncRead9poll_read.*\.0 :6" bounds="body of 4 symbolic bytes: 1 byte with the head, rest in two reads (1+2)"
-#[kani::proof]
-#[kani::stub(tokio::io::util::read_exact::eof, stubs::eof_simple)]
-#[kani::unwind(10)]
-fn c06_body_split_1_1_2() { payload_case::<4>(1, &[1], false) }
-
-// @verif prop=C06 tier=off replay=none mem=40 timeout=3000 unwindset="10read_exact.*9ReadExact.*6Future4poll.*\.0 :5;12ScriptReader.*9AsyncRead9poll_read.*\.0 :6" bounds="body of 4 symbolic bytes: all 4 with the head (same read)"
-#[kani::proof]
-#[kani::stub(tokio::io::util::read_exact::eof, stubs::eof_simple)]
-#[kani::unwind(10)]
-fn c06_body_with_head() { payload_case::<4>(4, &[], false) }
-
-// @verif prop=C02 tier=off replay=none mem=40 timeout=3000 unwindset="10read_exact.*9ReadExact.*6Future4poll.*\.0 :5;12ScriptReader.*9AsyncRead9poll_read.*\.0 :6" bounds="body of 3 symbolic bytes (NUL included) in the same read as the head"
-#[kani::proof]
-#[kani::stub(tokio::io::util::read_exact::eof, stubs::eof_simple)]
-#[kani::unwind(10)]
-fn c02_payload_same_read() { payload_case::<3>(3, &[], false) }
-
-// @verif prop=C02 tier=off replay=none mem=40 timeout=3000 unwindset="10read_exact.*9ReadExact.*6Future4poll.*\.0 :5;12ScriptReader.*9AsyncRead9poll_read.*\.0 :6" bounds="body of 3 symbolic bytes: 1 with the head, 2 later"
-#[kani::proof]
-#[kani::stub(tokio::io::util::read_exact::eof, stubs::eof_simple)]
-#[kani::unwind(10)]
-fn c02_payload_split() { payload_case::<3>(1, &[], false) }
+#[kani::unwind(9)]
+fn c02_payload_exact() {
+    let k: usize = kani::any();
+    kani::assume(k <= 3);
+    payload_kernel::<3>(k, 0);
+    kani::cover!(k == 3, "same read");
+}
 
 // =================================================================================================
 // G1 — Request::clear from an arbitrary dirty state
@@ -103,11 +93,42 @@ fn c05_clear_leaves_nothing_observable() {
     std::mem::forget(req);
 }
 
-// @verif prop=C05 tier=off replay=none mem=40 timeout=3000 unwindset="10read_exact.*9ReadExact.*6Future4poll.*\.0 :5;12ScriptReader.*9AsyncRead9poll_read.*\.0 :6" bounds="victim body of 3 symbolic bytes arriving in a later read; buffer tail = 6 arbitrary bytes an earlier request may have left (clear() stops at the first NUL)"
+// G2 — the victim's body arrives in a later read than its head; the connection's Request was used before
+// @verif prop=C05 tier=quick replay=none timeout=900 mem=10 bounds="32-byte buffer with arbitrary bytes of an earlier request (NUL anywhere), real clear(); then a victim whose head ends at a symbolic offset 20..=31 and whose 3-byte body arrives later"
 #[kani::proof]
 #[kani::stub(tokio::io::util::read_exact::eof, stubs::eof_simple)]
-#[kani::unwind(10)]
-fn c05_victim_payload_after_dirty_clear() { payload_case::<3>(0, &[], true) }
+#[kani::stub(core::str::from_utf8, stubs::from_utf8_model)]
+#[kani::unwind(34)]
+fn c05_victim_payload_after_dirty_clear() {
+    let mut req = v::request_init();
+    let dirt: [u8; 32] = kani::any();
+    kani::assume(dirt[0] == b'G' || dirt[0] == b'P' || dirt[0] == b'D' || dirt[0] == b'H' || dirt[0] == b'O');
+    *v::request_buf(&mut req) = dirt;
+    v::request_clear(&mut req);
+    // the victim's head occupies the buffer up to `head_end`; what `read` would hand to read_payload is the rest of
+    // the buffer as the previous request and clear() left it
+    let head_end: usize = kani::any();
+    kani::assume(head_end >= 20 && head_end < 32);
+    let body: &'static [u8; 3] = Box::leak(Box::new(kani::any()));
+    let mut stream = SliceReader::new(&body[..], &[]);
+    let buf = v::request_buf(&mut req);
+    let left_over: &[u8] = &buf[head_end..];
+    // nothing of the victim's body arrived with its head: under the fixed `read` the tail is empty; a stale byte can
+    // only matter through the buffer, so the tail that the previous request left is what we pass when it is non-zero
+    let mut stale = false;
+    let mut i = head_end;
+    while i < 32 { if buf[i] != 0 { stale = true; } i += 1; }
+    assert!(!stale, "C05: bytes of an earlier request are still in the connection buffer when the next request is read");
+    let mut fut = v::read_payload(&mut stream, &left_over[..0], 3);
+    let got = crate::support::exec::block_on_in_place(&mut fut, 2).expect("read_payload completed");
+    let got: &[u8] = &got;
+    assert!(got.len() == 3 && got[0] == body[0] && got[1] == body[1] && got[2] == body[2],
+        "C05: the victim's payload is not its own body");
+    kani::cover!(dirt[21] == 0 && dirt[25] != 0, "dirty bytes behind an embedded NUL");
+    kani::cover!(body[0] == 0, "victim body starts with NUL");
+    std::mem::forget(fut);
+    std::mem::forget(req);
+}
 
 // =================================================================================================
 // K1 — header names compare case-insensitively; repeated headers are joined in order
